@@ -6,6 +6,7 @@ import (
 	"go/ast"
 	"go/parser"
 	"go/token"
+	"regexp"
 	"strings"
 
 	"github.com/philhassey/goatlang"
@@ -333,7 +334,7 @@ func c05goatValue(src string, env map[string]c05val) string {
 }
 
 func c05run(r *report.Run) {
-	r.Rule("all expressions u0x0 op1 u1x1 .. opn unxn over 19 binary operators, prefixes {none,-,^,!}, one optional parenthesised sub-range, operands as globals / decimal, hexadecimal, octal and binary literals / function locals, every int32/bool typing valid under Go's grouping; non-trivial = expression with >=2 binary operators whose Go grouping differs in structure from at least one alternative bracketing")
+	r.Rule("all expressions u0x0 op1 u1x1 .. opn unxn over 19 binary operators, prefixes {none,-,^,!}, one optional parenthesised sub-range, operands as globals / decimal, hexadecimal, octal and binary literals / function locals, on one line and with a line break after every binary operator, every int32/bool typing valid under Go's grouping; non-trivial = expression with >=2 binary operators whose Go grouping differs in structure from at least one alternative bracketing")
 	r.Assume("go/parser is the reference for grouping; native Go int32/bool arithmetic in the harness is the reference for values", "operands are distinct identifiers bound as globals; `a &^ b` is accepted as `a & ^b` (same value)")
 	thorough := r.Tier == "thorough"
 	var jobs []c05job
@@ -365,6 +366,14 @@ func c05run(r *report.Run) {
 			r.Eval(1)
 			if got != want {
 				r.Fail(&report.Case{Kind: "structure", Key: j.src, Input: c05replay{Src: j.src, Struct: true}, Want: want, Got: got + " [" + status + "]"})
+			}
+			// layout: a line break after every binary operator changes nothing
+			if ml := c05multiline(j.src); ml != j.src {
+				got2, status2 := c05goatTree(ml)
+				r.Eval(1)
+				if got2 != want {
+					r.Fail(&report.Case{Kind: "structure", Key: ml, Input: c05replay{Src: ml, Struct: true}, Want: want, Got: got2 + " [" + status2 + "]"})
+				}
 			}
 			// alternatives that parse to a different structure
 			var alts []ast.Expr
@@ -444,6 +453,9 @@ func c05run(r *report.Run) {
 						if used <= 2 {
 							for _, mode := range []string{"literals", "locals", "hex", "octal", "binary"} {
 								src2 := c05respell(j.src, env, names, mode)
+								if mode == "octal" {
+									src2 = c05multiline(src2) // and this spelling is written over several lines
+								}
 								g2 := c05evalSrc(src2)
 								r.Eval(1)
 								if g2 != wantV {
@@ -633,6 +645,11 @@ func c05welltyped(e ast.Expr, ty map[string]c05type) bool {
 	_, ok := tc(e)
 	return ok
 }
+
+var c05binRe = regexp.MustCompile(` ([-+*/%&|^<>=!]+) `)
+
+// c05multiline breaks the line after every binary operator (operators are written between blanks, prefixes are not).
+func c05multiline(src string) string { return c05binRe.ReplaceAllString(src, " $1\n\t") }
 
 // c05respell rewrites the expression with literal operands, or wraps it in a function with local operands.
 func c05respell(src string, env map[string]c05val, names []string, mode string) string {
